@@ -47,6 +47,11 @@ def step : Sexp → Option Sexp
       pure (list [atom "result", classesOf m p, encProgram (mapUnits dropComments (inlineProgram m p))])
   | list (atom "param" :: prog :: _) => do
       let p ← decProgram prog
+      let nonLit := p.units.any fun u => u.decls.any fun d => match d.param with
+        | some (.lit _) => false
+        | some _ => true
+        | none => false
+      if nonLit then pure (list [atom "result", atom "excluded"]) else
       pure (list [atom "result", encProgram (mapUnits dropComments { p with units := p.units.map paramUnit })])
   | list (atom "fun" :: _) => some (list [atom "result", atom "oracle-only"])
   | _ => none
